@@ -42,3 +42,50 @@ Definition astream (ul ud : Z -> bool) (d : dialect) (cm : bool) (src : str) : o
   | Ok (toks, _) => Some (map aobs toks)
   | _ => None
   end.
+
+(* ---- C15: what "every token is the exact source text" means ---- *)
+(* src[a:b] *)
+Definition sub (src : str) (a b : Z) : str := firstn (Z.to_nat (b - a)) (skipn (Z.to_nat a) src).
+Definition is_blank (b : N) : bool := ((b =? 32) || (b =? 9) || (b =? 10) || (b =? 13))%N.
+Definition blank_run (g : str) : Prop := Forall (fun b => is_blank b = true) g.
+(* [cr_del lit body]: lit is body with some carriage returns deleted (what stripCR does) *)
+Inductive cr_del : str -> str -> Prop :=
+| crd_nil : cr_del [] []
+| crd_keep x l b : cr_del l b -> cr_del (x :: l) (x :: b)
+| crd_drop l b : cr_del l b -> cr_del l (13%N :: b).
+(* the spelling of a token in the `tokens` array of its package (K-gen) *)
+Definition spell_of (d : dialect) (t : tk) : option str :=
+  zassoc (code d t) (match d with XGo => xgo_spell | Go => go_spell | Tpl => tpl_spell end).
+Definition keywords_of (d : dialect) : list (str * Z) :=
+  match d with XGo => xgo_keywords | Go => go_keywords | Tpl => [] end.
+(* the relation between the literal Scan returns for token t and the source text [body]
+   = src[tpos t : tend t] the token was scanned from *)
+Definition lit_ok (d : dialect) (t : Tok) (body : str) : Prop :=
+  match ttok t with
+  | T_EOF => body = [] /\ tlit t = []
+  | T_SEMICOLON =>
+      (tlit t = [59%N] /\ body = [59%N])                       (* a ';' of the source *)
+      \/ (tlit t = [10%N] /\ (body = [] \/ body = [10%N]))     (* inserted: at a newline, or before a comment / at EOF *)
+  | T_IDENT | T_INT | T_FLOAT | T_IMAG | T_RAT | T_UNIT | T_CHAR => tlit t = body /\ body <> []
+  | T_KW c => tlit t = body /\ kw_find (keywords_of d) body = Some c
+  | T_STRING => body <> [] /\ (tlit t = body \/ tlit t = strip_cr_all body)      (* raw strings lose their \r *)
+  | T_CSTRING => exists c, (c = 99%N \/ c = 67%N) /\ body = c :: tlit t          (* c"..." : literal starts at the quote *)
+  | T_PYSTRING => body = 112%N :: 121%N :: tlit t                                (* py"..." *)
+  | T_COMMENT => body <> [] /\ cr_del (tlit t) body
+  | T_ILLEGAL => body <> [] /\ zlen body <= 4        (* one character; the literal is string(ch), U+FFFD for an invalid byte *)
+  | _ => tlit t = [] /\ spell_of d (ttok t) = Some body        (* operators and delimiters: the spelling is the source text *)
+  end.
+(* the tokens, in order, with the text between them: f = end of the previous token *)
+Inductive chain (d : dialect) (src : str) (cm : bool) : Z -> list Tok -> Prop :=
+| chain_nil f : chain d src cm f []
+| chain_cons f t ts :
+    f <= tpos t -> tpos t <= tend t -> tend t <= zlen src ->
+    (cm = true -> blank_run (sub src f (tpos t))) ->
+    lit_ok d t (sub src (tpos t) (tend t)) ->
+    chain d src cm (tend t) ts -> chain d src cm f (t :: ts).
+(* Init skips a leading byte order mark *)
+Definition bom_len (src : str) : Z :=
+  match src with 239%N :: 187%N :: 191%N :: _ => 3 | _ => 0 end.
+Definition is_auto_semi_tok (t : Tok) : bool :=
+  match ttok t with T_SEMICOLON => str_eqb (tlit t) [10%N] | _ => false end.
+Definition is_eof_tok (t : Tok) : bool := match ttok t with T_EOF => true | _ => false end.
